@@ -11,8 +11,8 @@ source or as data is proposed for deletion.
 
 The code violates it in four ways (witnesses below, replayed on the real code from corpus/C25/known-*.ops);
 the partial theorems say exactly what does hold: nothing reachable from an initial
-root is proposed for removal (with `--conservative` that is all of `Needed`), and no SOURCE file of a kept target
-is proposed for deletion.
+root is proposed for removal (with `--conservative` that is all of `Needed`), and no source or data file of a kept
+target is proposed for deletion.
 -/
 namespace PlzVerif.Props.C25
 open PlzVerif.GC
@@ -26,7 +26,7 @@ def FactsOK : Bool :=
      "range GRAPH.PackageMap() { for _, v02 := range v01.Subincludes { addTarget(GRAPH, KEEP, GRAPH.TargetOrDie(v02)) } }",
      "range ARGS { if v01.IsAllSubpackages() { for _, v02 := range GRAPH.PackageMap() { if v02.IsIncludedIn(v01) { for _, v01 := range v02.AllTargets() { addTarget(GRAPH, KEEP, v01) } } } } else { addTarget(GRAPH, KEEP, GRAPH.Target(v01)) } }",
      "if !INCLUDETESTS { for _, v01 := range GRAPH.AllTargets() { if v01.IsTest() { for _, v02 := range publicDependencies(GRAPH, v01) { if KEEP[v02] && !v02.TestOnly { addTarget(GRAPH, KEEP, v01) } else if v02.TestOnly { addTarget(GRAPH, KEEP, v02) } } } } }",
-     "range KEEP { for _, v02 := range v01.AllLocalSourcePaths() { KEEPSRCS[v02] = true } }",
+     "range KEEP { for _, v02 := range v01.AllLocalSourcePaths() { KEEPSRCS[v02] = true } ; for _, v03 := range v01.AllData() { if v04, v05 := v03.(core.FileLabel); v05 { KEEPSRCS[v04.Paths(GRAPH)[0]] = true } } }",
      "range GRAPH.AllTargets() { if v02 := gcSibling(GRAPH, v01); !v02.HasParent() && !KEEP[v02] && !KEEP[v01] && isIncluded(v02, FILTER) { RET = append(RET, v01.Label) for _, v03 := range v01.AllLocalSourcePaths() { if !KEEPSRCS[v03] { RETSRCS = append(RETSRCS, v03) } } } }",
      "sort.Sort(RET)",
      "sort.Strings(RETSRCS)",
@@ -130,10 +130,10 @@ theorem C25_fuel_conservative (G : Graph) (hwf : GWF G) (Q : Query) (hc : Q.incl
   simp only [keepSet_fuel_conservative G hwf Q hc hs ha, Bool.false_eq_true, ite_false]
   exact ⟨_, _, rfl⟩
 
-/-- Partial: no SOURCE file of a target that an initial root depends on is proposed for deletion
-(data files are not covered: `C25_witness_data_file`). -/
+/-- Partial: no file that a target below an initial root uses — as a source or (since the repair of
+`gc-data-file-not-kept`) as data — is proposed for deletion. -/
 theorem C25_srcs_partial (G : Graph) (Q : Query) (ts fs : List Nat) (h : targetsToRemove G Q = some (ts, fs)) :
-    ∀ f ∈ fs, ∀ r k, Root0 G Q r → Reach G r k → f ∉ G.srcs k := by
+    ∀ f ∈ fs, ∀ r k, Root0 G Q r → Reach G r k → f ∉ G.srcs k ∧ f ∉ G.data k := by
   unfold targetsToRemove at h
   simp only at h
   split at h
@@ -191,16 +191,13 @@ theorem C25_witness_subtarget_rule : ¬ SafeSubtargets := by
   exact h gH Q0 [1] [] (by decide) 2 (.dep (a := 0) (.root (Or.inl ⟨by decide, by decide⟩)) (Or.inl (by decide))) rfl
     (by decide)
 
-/-- witness 4 (known finding `gc-data-file-not-kept`): `shared.txt` (file 2) is a data file of the binary `bin` and a
-source of the unused `old`; only sources of kept targets are protected. -/
+/-- the shape of the repaired finding `gc-data-file-not-kept` (fixed): `shared.txt` (file 2) is a data file of the binary
+`bin` and a source of the unused `old`; only `old.go` (file 1) goes. -/
 def gD : Graph := { nodes := [0, 1], decl := noL, res := noL, isBinary := fun | 0 => true | _ => false, isTest := noB,
                      testOnly := noB, keepLabel := noB, hasParent := noB, pl := id, sibs := noL,
                      srcs := fun | 0 => [0] | 1 => [2, 1] | _ => [], data := fun | 0 => [2] | _ => [] }
 
-theorem C25_witness_data_file : ¬ SafeSrcs := by
-  intro h
-  have := (h gD Q0 [1] [2, 1] (by decide) 2 (by decide) 0 (.root (Or.inl ⟨by decide, by decide⟩))).2
-  exact this (by decide)
+example : targetsToRemove gD Q0 = some ([1], [1]) := by decide
 
 -- non-vacuity of the partial theorems: a run that removes something while keeping a non-trivial closure
 def gOK : Graph := { gS with sibs := noL }
